@@ -46,13 +46,13 @@ type Node struct {
 	Queue []Notif
 	Nonce uint64
 
-	bc     *blockchain.Blockchain
-	bcTip  wire.Hash
+	bc      *blockchain.Blockchain
+	bcTip   wire.Hash
 	fixedBC *blockchain.Blockchain
-	bcN    int
-	sm     *netsync.SyncManager
-	pool   *blockchain.TxPool
-	closed bool
+	bcN     int
+	sm      *netsync.SyncManager
+	pool    *blockchain.TxPool
+	closed  bool
 }
 
 var zeroHash wire.Hash
